@@ -324,8 +324,6 @@ func verifH_C02_whole_file_chain() {
 	leaf := []string{`{"type":"string","description":"leaf"}`, `{"name":"p","in":"query","description":"leaf","schema":{"type":"string"}}`, `{"description":"leaf"}`}[kind]
 	files := map[string]string{}
 	via := verifChoose("via", 3)
-	// known finding: a file whose whole content is a reference *with a fragment* is taken for the object itself
-	verifKnown("C02-whole-file-content-is-fragment-reference", via == 1)
 	switch via {
 	case 0:
 		files["/r/a.json"] = `{"$ref":"b.json"}`
@@ -360,7 +358,10 @@ func verifH_C02_whole_file_chain() {
 			desc = *r.Value.Description
 		}
 	}
+	// known finding: a file whose whole content is a reference *with a fragment* is taken for the object itself
+	verifKnown("C02-whole-file-content-is-fragment-reference", via == 1)
 	verifAssert(desc == "leaf", "C02 whole-file chain: the reference resolves to the object at the end of the chain of files")
+	verifKnown("C02-whole-file-content-is-fragment-reference", false)
 	verifReach("end")
 }
 
